@@ -755,6 +755,8 @@ class BufferAsyncCalls(Generic[T]):
             try:
                 await _load_inputs(await self._getting)
             except (aio.TimeoutError, aio.CancelledError):
+                if _cancelling():  # This task is cancelled, not q.get()
+                    raise
                 await self._run_func(inputs)
             else:
                 self.q.task_done()
@@ -773,6 +775,8 @@ class BufferAsyncCalls(Generic[T]):
                 await self.func(inputs)
         except BaseException as e:  # noqa
             logging.exception("Failed to run %s, retrying", self.func)
+            if isinstance(e, aio.CancelledError) and _cancelling():
+                raise  # This task was cancelled, e.g. loop shutdown
         else:
             self.event.set()
 
